@@ -2,7 +2,8 @@
    Property theorems only.  The model is the code of /repo with proposed/C13/D7.diff and D8.diff applied. *)
 From Coq Require Import List Bool NArith ZArith Permutation.
 From AUC Require Import Prelude.PyStr Prelude.PyDict C16.Model C08.Model C03.Model C03.Spec C03.Inv
-  C13.Model C13.Spec C13.Strings C13.Table C13.Accept C13.Sched C13.Main C13.Run Gen.Server Gen.Ssdp.
+  C13.Model C13.Spec C13.Strings C13.Table C13.Accept C13.Sched C13.Main C13.Run C13.Decode Gen.Server Gen.Ssdp.
+From AUC Require C01.Model C01.Spec.
 Import ListNotations.
 Local Open Scope N_scope.
 
@@ -68,7 +69,8 @@ Print Assumptions C13_delay_in_window.
 
 (* Composition with the library's own listener (C03 model).  PREMISE decode_premise: the wire round trip
    (build_ssdp_packet, then decode_ssdp_packet at time now) of a wire-safe header dict yields a well-formed
-   header map that reads like decoded_view - C01's theorem, not proved here.  Then, for every emitted message,
+   header map that reads, under every name the tracker consults, like decoded_view - discharged below
+   (C13_decode_premise_real) by the decoder model of C01.  Then, for every emitted message,
    every tracker state satisfying the C03 invariant, every clock reading and every ip_version oracle: its
    header dict is wire safe; its type describes a device of the tree whose UDN is the USN's uuid part; a
    response / ssdp:alive is a valid sighting (C03.Spec.sighting) of exactly that device at that time, and after
@@ -99,7 +101,49 @@ Theorem C13_self_accepted :
 Proof. exact self_accepted_closed. Qed.
 Print Assumptions C13_self_accepted.
 
-(* The premise is satisfiable: the header map built from decoded_view itself satisfies it. *)
+(* The premise holds of the library's decoder (the C01 model of build_ssdp_packet / decode_ssdp_packet, tied to
+   ssdp.py by the C01 correspondence check): for every URL oracle, every unscoped source address and any
+   local/remote address tokens, the datagram built from a server start line and a wire-safe header dict decodes
+   to a map that is a well-formed CaseInsensitiveDict and reads like decoded_view under every name the tracker
+   consults (the sent headers, _udn, _timestamp). *)
+Theorem C13_decode_premise_real :
+  forall (url_of : pystr -> C01.Model.url_info) (local_tok remote_tok : N) (a : C01.Model.addr),
+  C01.Model.a_v6 a = None -> decode_premise (real_dec url_of local_tok remote_tok a).
+Proof. exact real_dec_premise. Qed.
+Print Assumptions C13_decode_premise_real.
+
+(* hence: every message the server emits, built by build_ssdp_packet and decoded by decode_ssdp_packet, is
+   accepted by the library's own listener as C13_self_accepted states *)
+Theorem C13_self_accepted_real :
+  forall (url_of : pystr -> C01.Model.url_info) (local_tok remote_tok : N) (a : C01.Model.addr),
+  C01.Model.a_v6 a = None ->
+  forall (cfg : config) (m : msg), cfg_ok cfg = true -> emitted cfg m ->
+  forall (ipver : pystr -> option N) (now : Z) (t : tracker), (0 <= now <= DT_MAX)%Z -> C03.Inv.Inv t ->
+  let D := decoded_view (msg_items cfg m) now in
+  let h := real_dec url_of local_tok remote_tok a (msg_line m) (msg_items cfg m) now in
+  let u := usn_udn_part (m_usn m) in
+  let loc := location_of_cfg cfg in
+  (exists d, In d (all_devices (c_root cfg)) /\ describes (c_root cfg) d (m_type m) = true /\ d_udn d = u) /\
+  match m_kind m with
+  | MResponse =>
+      exists dv, In (u, dv) (devices (fst (fst (on_srch ipver [] t h)))) /\
+                 dget str_eqb (d_locs dv) loc = Some (spec_valid_to D)
+  | MNotify =>
+      if str_eqb (m_nts m) nts_byebye
+      then devices (fst (fst (on_adv ipver t h))) = sdel (devices t) u
+      else exists dv, In (u, dv) (devices (fst (fst (on_adv ipver t h)))) /\
+                      dget str_eqb (d_locs dv) loc = Some (spec_valid_to D)
+  end.
+Proof.
+  intros url_of lt rt a Ha cfg m Hc He ipver now t Hnow Hi.
+  destruct (self_accepted_closed _ (real_dec_premise url_of lt rt a Ha) cfg m Hc He ipver now t Hnow Hi)
+    as [_ [Hd Hm]].
+  split; [exact Hd|]. destruct (m_kind m); [|destruct (str_eqb (m_nts m) nts_byebye)]; apply Hm.
+Qed.
+Print Assumptions C13_self_accepted_real.
+
+(* The premise is also satisfied by the header map built from decoded_view itself (the stand-in the
+   executable model runs). *)
 Theorem C13_decode_premise_inhabited : decode_premise model_dec.
 Proof. exact model_dec_premise. Qed.
 Print Assumptions C13_decode_premise_inhabited.
